@@ -142,6 +142,13 @@ func init() {
 	}
 }
 
+// simYield is a scheduling point inside a harness-owned seam (injected clock, rng, callbacks, interceptors).
+func simYield(point string) {
+	if w := curWorld.Load(); w != nil {
+		w.hook(point, nil)
+	}
+}
+
 func goid() uint64 {
 	var buf [64]byte
 	n := runtime.Stack(buf[:], false)
@@ -347,6 +354,12 @@ func (w *World) Adopt(name string, daemon bool) *Task {
 	t.park("start", true)
 	return t
 }
+
+// Detach turns an adopted task into a daemon: the goroutine goes back into library code (where hooks may still park
+// it) and will exit on its own; nothing waits for it any more.
+//
+//go:norace
+func (t *Task) Detach() { t.daemon = true }
 
 // Done marks an adopted task as finished.
 //
